@@ -107,6 +107,12 @@ def gen_case(rng, table):
         case["scenario_option"] = {"scale": "country", "dairy": float(rng.choice([0, 5, -1]))}
     if rng.random() < 0.08:
         case["ret"] = False
+    # sequences on ONE runner object: about half of the calls reuse the previous case's runner (runs of 2-3 and more),
+    # some go through run_many_options (two inner calls on the same object; the second is the one compared)
+    case["reuse"] = rng.random() < 0.55
+    if rng.random() < 0.10 and case["scenario_option"]:
+        case["via_many"] = True
+        case["ret"] = False          # run_many_options passes return_results=False
     r = rng.random()
     if r < 0.10:
         c = rng.choice(codes)
@@ -121,7 +127,8 @@ def gen_case(rng, table):
 
 def impl_payload(case):
     return {"list": case["list"], "fracs": case["fracs_all"], "default": 0.0, "scenario_option": case["scenario_option"],
-            "overrides": case["overrides"], "ret": case["ret"]}
+            "overrides": case["overrides"], "ret": case["ret"], "reuse": case.get("reuse", False),
+            "via_many": case.get("via_many", False)}
 
 
 # ------------------------------------------------------------------ Coq term of a case
@@ -219,7 +226,7 @@ def audit_case(ctx, case, res, table):
 def run(ctx):
     ctx.level = "proof"
     ctx.rule = ("case = (countries_list, fraction per country returned by the stubbed optimiser, scenario_option, table "
-                "overrides, return_results); evaluation = one call of run_model_no_trade compared with the model inside Coq "
+                "overrides, return_results, same-runner-object / via run_many_options); evaluation = one call of run_model_no_trade compared with the model inside Coq "
                 "and audited clause by clause; non-trivial = the run was accepted, ran at least one country and the list is "
                 "non-empty or some fraction is capped; distinct = hash of (list, fractions of the countries run, options, overrides)")
     ctx.trusted += ["translator harness/gen_country_table.py (csv module + decimal.Decimal; AST of ImportUtilities country lists)",
@@ -375,7 +382,12 @@ def corpus_cases(table):
         fr = dict(half)
         fr["USA"] = 1.5
         fr["CHN"] = 1.0
-        out.append({"kind": kind, "list": l, "fracs_all": fr, **base})
+        out.append({"kind": kind, "list": l, "fracs_all": fr, "reuse": len(out) % 3 != 0, **base})
+    # the same selection twice and through run_many_options on one runner object
+    for l in (["USA", "CHN"], ["!USA"]):
+        fr = dict(half)
+        out.append({"kind": "sequence", "list": l, "fracs_all": fr, "reuse": True, **base})
+        out.append({"kind": "sequence", "list": l, "fracs_all": fr, "reuse": True, "via_many": True, **dict(base, ret=False)})
     return out
 
 
